@@ -73,7 +73,10 @@ type WorldConfig struct {
 	Backend      primitive.Client // nil: simatomix
 	NoPlugin     map[string]bool  // targets whose model type has no plugin registered
 	Persistent   map[string]bool
-	V3           bool // the next-generation stack: v3 stores and the v3 transaction / configuration / mastership controllers
+	// TrackDeviceHistory makes every device remember what it accepted in the newest term (a history variable that is
+	// part of the state; used by the C10 monitors)
+	TrackDeviceHistory bool
+	V3                 bool // the next-generation stack: v3 stores and the v3 transaction / configuration / mastership controllers
 }
 
 type watcherHandle struct {
@@ -136,6 +139,7 @@ func NewWorld(cfg WorldConfig) *World {
 	var plugins []*simPlugin
 	for i, t := range cfg.Targets {
 		w.devices[t] = newSimDevice(t, w.fuse)
+		w.devices[t].trackHist = cfg.TrackDeviceHistory
 		if !cfg.NoPlugin[t] {
 			p := newSimPlugin(targetType(i), targetVersion)
 			w.plugins[t] = p
@@ -340,6 +344,8 @@ type StepResult struct {
 	Crashed   bool
 	Requeued  bool
 	Conflicts int // interleaved steps: store writes refused with a version conflict
+	// DevHist: with WorldConfig.TrackDeviceHistory, per device "<newest term>|<path=value accepted in it>..." after the step
+	DevHist map[string]string
 }
 
 // Step runs one real Reconcile call to completion and lets every event it caused be delivered.
@@ -376,6 +382,13 @@ func (w *World) Step(ctrl, id string) StepResult {
 	for t, d := range w.devices {
 		if l := d.TakeLog(); len(l) > 0 {
 			res.DevLog[t] = l
+		}
+	}
+	if w.cfg.TrackDeviceHistory {
+		res.DevHist = map[string]string{}
+		for t, d := range w.devices {
+			el, l := d.History()
+			res.DevHist[t] = fmt.Sprintf("%d|%s", el, strings.Join(l, "\x01"))
 		}
 	}
 	res.Docs = map[string][]pluginDoc{}
@@ -453,6 +466,13 @@ func (w *World) StepInterleaved(ctrl, id string, k int, other func()) (res StepR
 			res.DevLog[t] = l
 		}
 	}
+	if w.cfg.TrackDeviceHistory {
+		res.DevHist = map[string]string{}
+		for t, d := range w.devices {
+			el, l := d.History()
+			res.DevHist[t] = fmt.Sprintf("%d|%s", el, strings.Join(l, "\x01"))
+		}
+	}
 	res.Docs = map[string][]pluginDoc{}
 	for t, p := range w.plugins {
 		if d := p.TakeDocs(); len(d) > 0 {
@@ -515,6 +535,13 @@ func (w *World) StepSplit(ctrl, id string, k int, atHold func()) (res StepResult
 	for t, d := range w.devices {
 		if l := d.TakeLog(); len(l) > 0 {
 			res.DevLog[t] = l
+		}
+	}
+	if w.cfg.TrackDeviceHistory {
+		res.DevHist = map[string]string{}
+		for t, d := range w.devices {
+			el, l := d.History()
+			res.DevHist[t] = fmt.Sprintf("%d|%s", el, strings.Join(l, "\x01"))
 		}
 	}
 	res.Docs = map[string][]pluginDoc{}
